@@ -36,7 +36,9 @@ RULE = (
     "per vector component), damping None or 10^[-8,2], forces at the data or at a separate set of ceil(n/4)..n points, Poisson ratio in [-1,1], "
     "mindist 0 or small (Spline) / >0 (VectorSpline2D); MAGNITUDE classes: all weights times 1e-15, 1e-12, 1e-9, 1e-6, 1, 1e6, 1e12 (stream wmag: every "
     "estimator configuration x every magnitude, undamped ones also against the fit with the unscaled weights) and all data times 1e-15..1e15; undamped "
-    "fits with fewer forces than data and non-uniform weights are counted as their own class; HISTORY stream: the same object fitted again (after "
+    "fits with fewer forces than data and non-uniform weights are counted as their own class; SPELLINGS stream: damping (1, 10, 100 as int, np.int64, np.int32, np.float32, np.float64, 0-d arrays), degree, "
+    "poisson (0, -1, 1 as ints), mindist given as Python int / numpy integer / numpy floating / 0-d array, each against the twin built with the plain "
+    "float (reference: float(value)); forces may also be the data points in another order; HISTORY stream: the same object fitted again (after "
     "predict / grid / filter / score / jacobian or directly; other locations, smaller / equal / larger size, other layouts; the caller's buffers re-used "
     "with new contents), re-configured through set_params or attribute assignment after or before first use (Trend degree, Spline / VectorSpline2D "
     "damping, mindist, poisson, force_coords None <-> explicit; also through instances held in a Chain / Vector), and fitted validly after a fit() "
@@ -69,8 +71,8 @@ ASSUMPTIONS = [
     "n_1d_arrays document via np.ravel); the reference takes np.asarray(arg).ravel() of every argument",
 ]
 FLOORS = {
-    "quick": {'eval:optimality': 1610, 'eval:prediction_agreement': 2259, 'eval:weight_scale_invariance': 126, 'eval:vanishing_weight': 96, 'fit:trend': 450, 'fit:spline': 480, 'fit:vspline': 300, 'informative_undamped_kappa_ge_1e6': 140, 'distinct_nontrivial': 1200, 'layout:weights:2d_fortran': 50, 'layout:weights:2d_transposed_view': 50, 'layout:weights:2d_strided': 55, 'layout:weights:2d_negative_stride': 55, 'layout:weights:2d_readonly_fortran': 50, 'layout:weights:1d_series': 80, 'layout:data:2d_fortran': 65, 'layout:data:2d_transposed_view': 65, 'layout:data:2d_strided': 75, 'layout:data:1d_series': 95, 'layout:coordinates:2d_fortran': 120, 'layout:coordinates:2d_transposed_view': 110, 'layout:coordinates:1d_series': 160, 'layout:force_coords:2d_fortran': 10, 'layout:weights_laid_out_differently_from_data': 540, 'class:undamped_fewer_forces_than_data_nonuniform_weights:spline': 159, 'class:undamped_fewer_forces_than_data_nonuniform_weights:vspline': 135, 'data_magnitude:1e+00': 497, 'data_magnitude:1e+03': 48, 'data_magnitude:1e+06': 46, 'data_magnitude:1e+09': 40, 'data_magnitude:1e+12': 40, 'data_magnitude:1e+15': 42, 'data_magnitude:1e-03': 36, 'data_magnitude:1e-06': 42, 'data_magnitude:1e-09': 39, 'data_magnitude:1e-12': 35, 'data_magnitude:1e-15': 38, 'weight_magnitude:1e+00': 324, 'weight_magnitude:1e+06': 38, 'weight_magnitude:1e+12': 36, 'weight_magnitude:1e-06': 28, 'weight_magnitude:1e-09': 38, 'weight_magnitude:1e-12': 37, 'weight_magnitude:1e-15': 34, 'weight_magnitude_class:spline_damped:1e+00': 2, 'weight_magnitude_class:spline_damped:1e+06': 2, 'weight_magnitude_class:spline_damped:1e+12': 2, 'weight_magnitude_class:spline_damped:1e-06': 2, 'weight_magnitude_class:spline_damped:1e-09': 2, 'weight_magnitude_class:spline_damped:1e-12': 2, 'weight_magnitude_class:spline_damped:1e-15': 2, 'weight_magnitude_class:spline_damped_fewer_forces:1e+00': 2, 'weight_magnitude_class:spline_damped_fewer_forces:1e+06': 2, 'weight_magnitude_class:spline_damped_fewer_forces:1e+12': 2, 'weight_magnitude_class:spline_damped_fewer_forces:1e-06': 2, 'weight_magnitude_class:spline_damped_fewer_forces:1e-09': 2, 'weight_magnitude_class:spline_damped_fewer_forces:1e-12': 2, 'weight_magnitude_class:spline_damped_fewer_forces:1e-15': 2, 'weight_magnitude_class:spline_undamped_fewer_forces:1e+00': 2, 'weight_magnitude_class:spline_undamped_fewer_forces:1e+06': 2, 'weight_magnitude_class:spline_undamped_fewer_forces:1e+12': 2, 'weight_magnitude_class:spline_undamped_fewer_forces:1e-06': 2, 'weight_magnitude_class:spline_undamped_fewer_forces:1e-09': 2, 'weight_magnitude_class:spline_undamped_fewer_forces:1e-12': 2, 'weight_magnitude_class:spline_undamped_fewer_forces:1e-15': 2, 'weight_magnitude_class:trend:1e+00': 2, 'weight_magnitude_class:trend:1e+06': 2, 'weight_magnitude_class:trend:1e+12': 2, 'weight_magnitude_class:trend:1e-06': 2, 'weight_magnitude_class:trend:1e-09': 2, 'weight_magnitude_class:trend:1e-12': 2, 'weight_magnitude_class:trend:1e-15': 2, 'weight_magnitude_class:vspline_damped:1e+00': 2, 'weight_magnitude_class:vspline_damped:1e+06': 2, 'weight_magnitude_class:vspline_damped:1e+12': 2, 'weight_magnitude_class:vspline_damped:1e-06': 2, 'weight_magnitude_class:vspline_damped:1e-09': 2, 'weight_magnitude_class:vspline_damped:1e-12': 2, 'weight_magnitude_class:vspline_damped:1e-15': 2, 'weight_magnitude_class:vspline_undamped_fewer_forces:1e+00': 2, 'weight_magnitude_class:vspline_undamped_fewer_forces:1e+06': 2, 'weight_magnitude_class:vspline_undamped_fewer_forces:1e+12': 2, 'weight_magnitude_class:vspline_undamped_fewer_forces:1e-06': 2, 'weight_magnitude_class:vspline_undamped_fewer_forces:1e-09': 2, 'weight_magnitude_class:vspline_undamped_fewer_forces:1e-12': 2, 'weight_magnitude_class:vspline_undamped_fewer_forces:1e-15': 2, 'weight_scale_invariance:magnitude:1e+06': 5, 'weight_scale_invariance:magnitude:1e+12': 5, 'weight_scale_invariance:magnitude:1e-06': 6, 'weight_scale_invariance:magnitude:1e-09': 5, 'weight_scale_invariance:magnitude:1e-12': 5, 'weight_scale_invariance:magnitude:1e-15': 5, 'history:error_then_fit:spline': 4, 'history:error_then_fit:trend': 4, 'history:error_then_fit:vspline': 4, 'history:reconfigure_after_use:spline': 4, 'history:reconfigure_after_use:trend': 4, 'history:reconfigure_after_use:vspline': 4, 'history:reconfigure_before_use:spline': 4, 'history:reconfigure_before_use:trend': 4, 'history:reconfigure_before_use:vspline': 4, 'history:reconfigure_held_in_chain:spline': 4, 'history:reconfigure_held_in_chain:trend': 4, 'history:reconfigure_held_in_chain:vspline': 4, 'history:refit_after_resetting_forces:spline': 4, 'history:refit_after_resetting_forces:vspline': 4, 'history:refit_after_use:spline': 4, 'history:refit_after_use:trend': 9, 'history:refit_after_use:vspline': 4, 'history:refit_directly:spline': 4, 'history:refit_directly:trend': 4, 'history:refit_directly:vspline': 4, 'history:refit_same_arrays_new_contents:spline': 4, 'history:refit_same_arrays_new_contents:trend': 4, 'history:refit_same_arrays_new_contents:vspline': 4, 'history:size_change:equal': 15, 'history:size_change:larger': 13, 'history:size_change:smaller': 14, 'history:trend_degree_down': 5, 'history:trend_degree_up': 5, 'history:use:filter': 5, 'history:use:grid': 6, 'history:use:jacobian': 5, 'history:use:nothing': 4, 'history:use:predict_data': 8, 'history:use:predict_elsewhere': 7, 'history:use:score': 6, 'history:via_attribute_assignment': 16, 'history:via_set_params': 15, 'fit_raised:vspline:ValueError': 4},
-    "thorough": {'eval:optimality': 36234, 'eval:prediction_agreement': 50832, 'eval:weight_scale_invariance': 2844, 'eval:vanishing_weight': 2160, 'fit:trend': 11250, 'fit:spline': 12000, 'fit:vspline': 7500, 'informative_undamped_kappa_ge_1e6': 3500, 'distinct_nontrivial': 30000, 'layout:weights:2d_fortran': 1250, 'layout:weights:2d_transposed_view': 1250, 'layout:weights:2d_strided': 1375, 'layout:weights:2d_negative_stride': 1375, 'layout:weights:2d_readonly_fortran': 1250, 'layout:weights:1d_series': 2000, 'layout:data:2d_fortran': 1625, 'layout:data:2d_transposed_view': 1625, 'layout:data:2d_strided': 1875, 'layout:data:1d_series': 2375, 'layout:coordinates:2d_fortran': 3000, 'layout:coordinates:2d_transposed_view': 2750, 'layout:coordinates:1d_series': 4000, 'layout:force_coords:2d_fortran': 250, 'layout:weights_laid_out_differently_from_data': 13500, 'class:undamped_fewer_forces_than_data_nonuniform_weights:spline': 3577, 'class:undamped_fewer_forces_than_data_nonuniform_weights:vspline': 3037, 'data_magnitude:1e+00': 11182, 'data_magnitude:1e+03': 1080, 'data_magnitude:1e+06': 1035, 'data_magnitude:1e+09': 900, 'data_magnitude:1e+12': 900, 'data_magnitude:1e+15': 945, 'data_magnitude:1e-03': 810, 'data_magnitude:1e-06': 945, 'data_magnitude:1e-09': 877, 'data_magnitude:1e-12': 787, 'data_magnitude:1e-15': 855, 'weight_magnitude:1e+00': 7290, 'weight_magnitude:1e+06': 855, 'weight_magnitude:1e+12': 810, 'weight_magnitude:1e-06': 630, 'weight_magnitude:1e-09': 855, 'weight_magnitude:1e-12': 832, 'weight_magnitude:1e-15': 765, 'weight_magnitude_class:spline_damped:1e+00': 45, 'weight_magnitude_class:spline_damped:1e+06': 45, 'weight_magnitude_class:spline_damped:1e+12': 45, 'weight_magnitude_class:spline_damped:1e-06': 45, 'weight_magnitude_class:spline_damped:1e-09': 45, 'weight_magnitude_class:spline_damped:1e-12': 45, 'weight_magnitude_class:spline_damped:1e-15': 45, 'weight_magnitude_class:spline_damped_fewer_forces:1e+00': 45, 'weight_magnitude_class:spline_damped_fewer_forces:1e+06': 45, 'weight_magnitude_class:spline_damped_fewer_forces:1e+12': 45, 'weight_magnitude_class:spline_damped_fewer_forces:1e-06': 45, 'weight_magnitude_class:spline_damped_fewer_forces:1e-09': 45, 'weight_magnitude_class:spline_damped_fewer_forces:1e-12': 45, 'weight_magnitude_class:spline_damped_fewer_forces:1e-15': 45, 'weight_magnitude_class:spline_undamped_fewer_forces:1e+00': 45, 'weight_magnitude_class:spline_undamped_fewer_forces:1e+06': 45, 'weight_magnitude_class:spline_undamped_fewer_forces:1e+12': 45, 'weight_magnitude_class:spline_undamped_fewer_forces:1e-06': 45, 'weight_magnitude_class:spline_undamped_fewer_forces:1e-09': 45, 'weight_magnitude_class:spline_undamped_fewer_forces:1e-12': 45, 'weight_magnitude_class:spline_undamped_fewer_forces:1e-15': 45, 'weight_magnitude_class:trend:1e+00': 45, 'weight_magnitude_class:trend:1e+06': 45, 'weight_magnitude_class:trend:1e+12': 45, 'weight_magnitude_class:trend:1e-06': 45, 'weight_magnitude_class:trend:1e-09': 45, 'weight_magnitude_class:trend:1e-12': 45, 'weight_magnitude_class:trend:1e-15': 45, 'weight_magnitude_class:vspline_damped:1e+00': 45, 'weight_magnitude_class:vspline_damped:1e+06': 45, 'weight_magnitude_class:vspline_damped:1e+12': 45, 'weight_magnitude_class:vspline_damped:1e-06': 45, 'weight_magnitude_class:vspline_damped:1e-09': 45, 'weight_magnitude_class:vspline_damped:1e-12': 45, 'weight_magnitude_class:vspline_damped:1e-15': 45, 'weight_magnitude_class:vspline_undamped_fewer_forces:1e+00': 45, 'weight_magnitude_class:vspline_undamped_fewer_forces:1e+06': 45, 'weight_magnitude_class:vspline_undamped_fewer_forces:1e+12': 45, 'weight_magnitude_class:vspline_undamped_fewer_forces:1e-06': 45, 'weight_magnitude_class:vspline_undamped_fewer_forces:1e-09': 45, 'weight_magnitude_class:vspline_undamped_fewer_forces:1e-12': 45, 'weight_magnitude_class:vspline_undamped_fewer_forces:1e-15': 45, 'weight_scale_invariance:magnitude:1e+06': 112, 'weight_scale_invariance:magnitude:1e+12': 112, 'weight_scale_invariance:magnitude:1e-06': 135, 'weight_scale_invariance:magnitude:1e-09': 112, 'weight_scale_invariance:magnitude:1e-12': 112, 'weight_scale_invariance:magnitude:1e-15': 112, 'history:error_then_fit:spline': 80, 'history:error_then_fit:trend': 80, 'history:error_then_fit:vspline': 80, 'history:reconfigure_after_use:spline': 80, 'history:reconfigure_after_use:trend': 80, 'history:reconfigure_after_use:vspline': 80, 'history:reconfigure_before_use:spline': 80, 'history:reconfigure_before_use:trend': 80, 'history:reconfigure_before_use:vspline': 80, 'history:reconfigure_held_in_chain:spline': 80, 'history:reconfigure_held_in_chain:trend': 80, 'history:reconfigure_held_in_chain:vspline': 80, 'history:refit_after_resetting_forces:spline': 80, 'history:refit_after_resetting_forces:vspline': 80, 'history:refit_after_use:spline': 80, 'history:refit_after_use:trend': 180, 'history:refit_after_use:vspline': 80, 'history:refit_directly:spline': 80, 'history:refit_directly:trend': 80, 'history:refit_directly:vspline': 80, 'history:refit_same_arrays_new_contents:spline': 80, 'history:refit_same_arrays_new_contents:trend': 80, 'history:refit_same_arrays_new_contents:vspline': 80, 'history:size_change:equal': 337, 'history:size_change:larger': 303, 'history:size_change:smaller': 330, 'history:trend_degree_down': 128, 'history:trend_degree_up': 114, 'history:use:filter': 114, 'history:use:grid': 135, 'history:use:jacobian': 114, 'history:use:nothing': 108, 'history:use:predict_data': 189, 'history:use:predict_elsewhere': 168, 'history:use:score': 141, 'history:via_attribute_assignment': 378, 'history:via_set_params': 351, 'fit_raised:vspline:ValueError': 80},
+    "quick": {'eval:optimality': 1754, 'eval:prediction_agreement': 2374, 'eval:weight_scale_invariance': 126, 'eval:vanishing_weight': 96, 'fit:trend': 450, 'fit:spline': 480, 'fit:vspline': 300, 'informative_undamped_kappa_ge_1e6': 140, 'distinct_nontrivial': 1200, 'layout:weights:2d_fortran': 50, 'layout:weights:2d_transposed_view': 50, 'layout:weights:2d_strided': 55, 'layout:weights:2d_negative_stride': 55, 'layout:weights:2d_readonly_fortran': 50, 'layout:weights:1d_series': 80, 'layout:data:2d_fortran': 65, 'layout:data:2d_transposed_view': 65, 'layout:data:2d_strided': 75, 'layout:data:1d_series': 95, 'layout:coordinates:2d_fortran': 120, 'layout:coordinates:2d_transposed_view': 110, 'layout:coordinates:1d_series': 160, 'layout:force_coords:2d_fortran': 10, 'layout:weights_laid_out_differently_from_data': 540, 'class:undamped_fewer_forces_than_data_nonuniform_weights:spline': 159, 'class:undamped_fewer_forces_than_data_nonuniform_weights:vspline': 135, 'data_magnitude:1e+00': 497, 'data_magnitude:1e+03': 48, 'data_magnitude:1e+06': 46, 'data_magnitude:1e+09': 40, 'data_magnitude:1e+12': 40, 'data_magnitude:1e+15': 42, 'data_magnitude:1e-03': 36, 'data_magnitude:1e-06': 42, 'data_magnitude:1e-09': 39, 'data_magnitude:1e-12': 35, 'data_magnitude:1e-15': 38, 'weight_magnitude:1e+00': 324, 'weight_magnitude:1e+06': 38, 'weight_magnitude:1e+12': 36, 'weight_magnitude:1e-06': 28, 'weight_magnitude:1e-09': 38, 'weight_magnitude:1e-12': 37, 'weight_magnitude:1e-15': 34, 'weight_magnitude_class:spline_damped:1e+00': 2, 'weight_magnitude_class:spline_damped:1e+06': 2, 'weight_magnitude_class:spline_damped:1e+12': 2, 'weight_magnitude_class:spline_damped:1e-06': 2, 'weight_magnitude_class:spline_damped:1e-09': 2, 'weight_magnitude_class:spline_damped:1e-12': 2, 'weight_magnitude_class:spline_damped:1e-15': 2, 'weight_magnitude_class:spline_damped_fewer_forces:1e+00': 2, 'weight_magnitude_class:spline_damped_fewer_forces:1e+06': 2, 'weight_magnitude_class:spline_damped_fewer_forces:1e+12': 2, 'weight_magnitude_class:spline_damped_fewer_forces:1e-06': 2, 'weight_magnitude_class:spline_damped_fewer_forces:1e-09': 2, 'weight_magnitude_class:spline_damped_fewer_forces:1e-12': 2, 'weight_magnitude_class:spline_damped_fewer_forces:1e-15': 2, 'weight_magnitude_class:spline_undamped_fewer_forces:1e+00': 2, 'weight_magnitude_class:spline_undamped_fewer_forces:1e+06': 2, 'weight_magnitude_class:spline_undamped_fewer_forces:1e+12': 2, 'weight_magnitude_class:spline_undamped_fewer_forces:1e-06': 2, 'weight_magnitude_class:spline_undamped_fewer_forces:1e-09': 2, 'weight_magnitude_class:spline_undamped_fewer_forces:1e-12': 2, 'weight_magnitude_class:spline_undamped_fewer_forces:1e-15': 2, 'weight_magnitude_class:trend:1e+00': 2, 'weight_magnitude_class:trend:1e+06': 2, 'weight_magnitude_class:trend:1e+12': 2, 'weight_magnitude_class:trend:1e-06': 2, 'weight_magnitude_class:trend:1e-09': 2, 'weight_magnitude_class:trend:1e-12': 2, 'weight_magnitude_class:trend:1e-15': 2, 'weight_magnitude_class:vspline_damped:1e+00': 2, 'weight_magnitude_class:vspline_damped:1e+06': 2, 'weight_magnitude_class:vspline_damped:1e+12': 2, 'weight_magnitude_class:vspline_damped:1e-06': 2, 'weight_magnitude_class:vspline_damped:1e-09': 2, 'weight_magnitude_class:vspline_damped:1e-12': 2, 'weight_magnitude_class:vspline_damped:1e-15': 2, 'weight_magnitude_class:vspline_undamped_fewer_forces:1e+00': 2, 'weight_magnitude_class:vspline_undamped_fewer_forces:1e+06': 2, 'weight_magnitude_class:vspline_undamped_fewer_forces:1e+12': 2, 'weight_magnitude_class:vspline_undamped_fewer_forces:1e-06': 2, 'weight_magnitude_class:vspline_undamped_fewer_forces:1e-09': 2, 'weight_magnitude_class:vspline_undamped_fewer_forces:1e-12': 2, 'weight_magnitude_class:vspline_undamped_fewer_forces:1e-15': 2, 'weight_scale_invariance:magnitude:1e+06': 5, 'weight_scale_invariance:magnitude:1e+12': 5, 'weight_scale_invariance:magnitude:1e-06': 6, 'weight_scale_invariance:magnitude:1e-09': 5, 'weight_scale_invariance:magnitude:1e-12': 5, 'weight_scale_invariance:magnitude:1e-15': 5, 'history:error_then_fit:spline': 4, 'history:error_then_fit:trend': 4, 'history:error_then_fit:vspline': 4, 'history:reconfigure_after_use:spline': 4, 'history:reconfigure_after_use:trend': 4, 'history:reconfigure_after_use:vspline': 4, 'history:reconfigure_before_use:spline': 4, 'history:reconfigure_before_use:trend': 4, 'history:reconfigure_before_use:vspline': 4, 'history:reconfigure_held_in_chain:spline': 4, 'history:reconfigure_held_in_chain:trend': 4, 'history:reconfigure_held_in_chain:vspline': 4, 'history:refit_after_resetting_forces:spline': 4, 'history:refit_after_resetting_forces:vspline': 4, 'history:refit_after_use:spline': 4, 'history:refit_after_use:trend': 9, 'history:refit_after_use:vspline': 4, 'history:refit_directly:spline': 4, 'history:refit_directly:trend': 4, 'history:refit_directly:vspline': 4, 'history:refit_same_arrays_new_contents:spline': 4, 'history:refit_same_arrays_new_contents:trend': 4, 'history:refit_same_arrays_new_contents:vspline': 4, 'history:size_change:equal': 15, 'history:size_change:larger': 13, 'history:size_change:smaller': 14, 'history:trend_degree_down': 5, 'history:trend_degree_up': 5, 'history:use:filter': 5, 'history:use:grid': 6, 'history:use:jacobian': 5, 'history:use:nothing': 4, 'history:use:predict_data': 8, 'history:use:predict_elsewhere': 7, 'history:use:score': 6, 'history:via_attribute_assignment': 16, 'history:via_set_params': 15, 'fit_raised:vspline:ValueError': 4, 'eval:equivalent_spelling': 72, 'forces:spline:at_data': 104, 'forces:spline:data_points_in_another_order': 21, 'forces:spline:grid': 104, 'forces:spline:moved_subset': 102, 'forces:vspline:at_data': 53, 'forces:vspline:data_points_in_another_order': 10, 'forces:vspline:grid': 58, 'forces:vspline:moved_subset': 42, 'spelling:spline_damping:float32(0.5)': 1, 'spelling:spline_damping:float32(8.0)': 1, 'spelling:spline_damping:float64(0.25)': 1, 'spelling:spline_damping:int(1.0)': 1, 'spelling:spline_damping:int(10.0)': 1, 'spelling:spline_damping:int(100.0)': 1, 'spelling:spline_damping:int32(1.0)': 1, 'spelling:spline_damping:int64(10.0)': 1, 'spelling:spline_damping:ndarray(10.0)': 1, 'spelling:spline_damping:ndarray(3.0)': 1, 'spelling:spline_mindist:0-d array': 2, 'spelling:spline_mindist:int': 3, 'spelling:spline_mindist:np.float32': 2, 'spelling:spline_mindist:np.int64': 3, 'spelling:trend_degree:int32': 3, 'spelling:trend_degree:int64': 3, 'spelling:trend_degree:ndarray': 2, 'spelling:trend_degree:uint8': 2, 'spelling:vspline_damping:float32(0.5)': 1, 'spelling:vspline_damping:float32(8.0)': 1, 'spelling:vspline_damping:float64(0.25)': 1, 'spelling:vspline_damping:int(1.0)': 1, 'spelling:vspline_damping:int(10.0)': 1, 'spelling:vspline_damping:int(100.0)': 1, 'spelling:vspline_damping:int32(1.0)': 1, 'spelling:vspline_damping:int64(10.0)': 1, 'spelling:vspline_damping:ndarray(10.0)': 1, 'spelling:vspline_damping:ndarray(3.0)': 1, 'spelling:vspline_mindist:0-d array': 2, 'spelling:vspline_mindist:int': 3, 'spelling:vspline_mindist:np.float32': 2, 'spelling:vspline_mindist:np.int64': 3, 'spelling:vspline_poisson:float32(0.5)': 1, 'spelling:vspline_poisson:int(-1.0)': 1, 'spelling:vspline_poisson:int(0.0)': 1, 'spelling:vspline_poisson:int(1.0)': 1, 'spelling:vspline_poisson:int64(0.0)': 1, 'spelling:vspline_poisson:int64(1.0)': 1, 'spelling:vspline_poisson:ndarray(-1.0)': 1, 'spelling:vspline_poisson:ndarray(0.25)': 1},
+    "thorough": {'eval:optimality': 39474, 'eval:prediction_agreement': 53424, 'eval:weight_scale_invariance': 2844, 'eval:vanishing_weight': 2160, 'fit:trend': 11250, 'fit:spline': 12000, 'fit:vspline': 7500, 'informative_undamped_kappa_ge_1e6': 3500, 'distinct_nontrivial': 30000, 'layout:weights:2d_fortran': 1250, 'layout:weights:2d_transposed_view': 1250, 'layout:weights:2d_strided': 1375, 'layout:weights:2d_negative_stride': 1375, 'layout:weights:2d_readonly_fortran': 1250, 'layout:weights:1d_series': 2000, 'layout:data:2d_fortran': 1625, 'layout:data:2d_transposed_view': 1625, 'layout:data:2d_strided': 1875, 'layout:data:1d_series': 2375, 'layout:coordinates:2d_fortran': 3000, 'layout:coordinates:2d_transposed_view': 2750, 'layout:coordinates:1d_series': 4000, 'layout:force_coords:2d_fortran': 250, 'layout:weights_laid_out_differently_from_data': 13500, 'class:undamped_fewer_forces_than_data_nonuniform_weights:spline': 3577, 'class:undamped_fewer_forces_than_data_nonuniform_weights:vspline': 3037, 'data_magnitude:1e+00': 11182, 'data_magnitude:1e+03': 1080, 'data_magnitude:1e+06': 1035, 'data_magnitude:1e+09': 900, 'data_magnitude:1e+12': 900, 'data_magnitude:1e+15': 945, 'data_magnitude:1e-03': 810, 'data_magnitude:1e-06': 945, 'data_magnitude:1e-09': 877, 'data_magnitude:1e-12': 787, 'data_magnitude:1e-15': 855, 'weight_magnitude:1e+00': 7290, 'weight_magnitude:1e+06': 855, 'weight_magnitude:1e+12': 810, 'weight_magnitude:1e-06': 630, 'weight_magnitude:1e-09': 855, 'weight_magnitude:1e-12': 832, 'weight_magnitude:1e-15': 765, 'weight_magnitude_class:spline_damped:1e+00': 45, 'weight_magnitude_class:spline_damped:1e+06': 45, 'weight_magnitude_class:spline_damped:1e+12': 45, 'weight_magnitude_class:spline_damped:1e-06': 45, 'weight_magnitude_class:spline_damped:1e-09': 45, 'weight_magnitude_class:spline_damped:1e-12': 45, 'weight_magnitude_class:spline_damped:1e-15': 45, 'weight_magnitude_class:spline_damped_fewer_forces:1e+00': 45, 'weight_magnitude_class:spline_damped_fewer_forces:1e+06': 45, 'weight_magnitude_class:spline_damped_fewer_forces:1e+12': 45, 'weight_magnitude_class:spline_damped_fewer_forces:1e-06': 45, 'weight_magnitude_class:spline_damped_fewer_forces:1e-09': 45, 'weight_magnitude_class:spline_damped_fewer_forces:1e-12': 45, 'weight_magnitude_class:spline_damped_fewer_forces:1e-15': 45, 'weight_magnitude_class:spline_undamped_fewer_forces:1e+00': 45, 'weight_magnitude_class:spline_undamped_fewer_forces:1e+06': 45, 'weight_magnitude_class:spline_undamped_fewer_forces:1e+12': 45, 'weight_magnitude_class:spline_undamped_fewer_forces:1e-06': 45, 'weight_magnitude_class:spline_undamped_fewer_forces:1e-09': 45, 'weight_magnitude_class:spline_undamped_fewer_forces:1e-12': 45, 'weight_magnitude_class:spline_undamped_fewer_forces:1e-15': 45, 'weight_magnitude_class:trend:1e+00': 45, 'weight_magnitude_class:trend:1e+06': 45, 'weight_magnitude_class:trend:1e+12': 45, 'weight_magnitude_class:trend:1e-06': 45, 'weight_magnitude_class:trend:1e-09': 45, 'weight_magnitude_class:trend:1e-12': 45, 'weight_magnitude_class:trend:1e-15': 45, 'weight_magnitude_class:vspline_damped:1e+00': 45, 'weight_magnitude_class:vspline_damped:1e+06': 45, 'weight_magnitude_class:vspline_damped:1e+12': 45, 'weight_magnitude_class:vspline_damped:1e-06': 45, 'weight_magnitude_class:vspline_damped:1e-09': 45, 'weight_magnitude_class:vspline_damped:1e-12': 45, 'weight_magnitude_class:vspline_damped:1e-15': 45, 'weight_magnitude_class:vspline_undamped_fewer_forces:1e+00': 45, 'weight_magnitude_class:vspline_undamped_fewer_forces:1e+06': 45, 'weight_magnitude_class:vspline_undamped_fewer_forces:1e+12': 45, 'weight_magnitude_class:vspline_undamped_fewer_forces:1e-06': 45, 'weight_magnitude_class:vspline_undamped_fewer_forces:1e-09': 45, 'weight_magnitude_class:vspline_undamped_fewer_forces:1e-12': 45, 'weight_magnitude_class:vspline_undamped_fewer_forces:1e-15': 45, 'weight_scale_invariance:magnitude:1e+06': 112, 'weight_scale_invariance:magnitude:1e+12': 112, 'weight_scale_invariance:magnitude:1e-06': 135, 'weight_scale_invariance:magnitude:1e-09': 112, 'weight_scale_invariance:magnitude:1e-12': 112, 'weight_scale_invariance:magnitude:1e-15': 112, 'history:error_then_fit:spline': 80, 'history:error_then_fit:trend': 80, 'history:error_then_fit:vspline': 80, 'history:reconfigure_after_use:spline': 80, 'history:reconfigure_after_use:trend': 80, 'history:reconfigure_after_use:vspline': 80, 'history:reconfigure_before_use:spline': 80, 'history:reconfigure_before_use:trend': 80, 'history:reconfigure_before_use:vspline': 80, 'history:reconfigure_held_in_chain:spline': 80, 'history:reconfigure_held_in_chain:trend': 80, 'history:reconfigure_held_in_chain:vspline': 80, 'history:refit_after_resetting_forces:spline': 80, 'history:refit_after_resetting_forces:vspline': 80, 'history:refit_after_use:spline': 80, 'history:refit_after_use:trend': 180, 'history:refit_after_use:vspline': 80, 'history:refit_directly:spline': 80, 'history:refit_directly:trend': 80, 'history:refit_directly:vspline': 80, 'history:refit_same_arrays_new_contents:spline': 80, 'history:refit_same_arrays_new_contents:trend': 80, 'history:refit_same_arrays_new_contents:vspline': 80, 'history:size_change:equal': 337, 'history:size_change:larger': 303, 'history:size_change:smaller': 330, 'history:trend_degree_down': 128, 'history:trend_degree_up': 114, 'history:use:filter': 114, 'history:use:grid': 135, 'history:use:jacobian': 114, 'history:use:nothing': 108, 'history:use:predict_data': 189, 'history:use:predict_elsewhere': 168, 'history:use:score': 141, 'history:via_attribute_assignment': 378, 'history:via_set_params': 351, 'fit_raised:vspline:ValueError': 80, 'eval:equivalent_spelling': 1620, 'forces:spline:at_data': 2080, 'forces:spline:data_points_in_another_order': 420, 'forces:spline:grid': 2080, 'forces:spline:moved_subset': 2040, 'forces:vspline:at_data': 1060, 'forces:vspline:data_points_in_another_order': 200, 'forces:vspline:grid': 1160, 'forces:vspline:moved_subset': 840, 'spelling:spline_damping:float32(0.5)': 20, 'spelling:spline_damping:float32(8.0)': 20, 'spelling:spline_damping:float64(0.25)': 20, 'spelling:spline_damping:int(1.0)': 20, 'spelling:spline_damping:int(10.0)': 20, 'spelling:spline_damping:int(100.0)': 20, 'spelling:spline_damping:int32(1.0)': 20, 'spelling:spline_damping:int64(10.0)': 20, 'spelling:spline_damping:ndarray(10.0)': 20, 'spelling:spline_damping:ndarray(3.0)': 20, 'spelling:spline_mindist:0-d array': 40, 'spelling:spline_mindist:int': 60, 'spelling:spline_mindist:np.float32': 40, 'spelling:spline_mindist:np.int64': 60, 'spelling:trend_degree:int32': 60, 'spelling:trend_degree:int64': 60, 'spelling:trend_degree:ndarray': 40, 'spelling:trend_degree:uint8': 40, 'spelling:vspline_damping:float32(0.5)': 20, 'spelling:vspline_damping:float32(8.0)': 20, 'spelling:vspline_damping:float64(0.25)': 20, 'spelling:vspline_damping:int(1.0)': 20, 'spelling:vspline_damping:int(10.0)': 20, 'spelling:vspline_damping:int(100.0)': 20, 'spelling:vspline_damping:int32(1.0)': 20, 'spelling:vspline_damping:int64(10.0)': 20, 'spelling:vspline_damping:ndarray(10.0)': 20, 'spelling:vspline_damping:ndarray(3.0)': 20, 'spelling:vspline_mindist:0-d array': 40, 'spelling:vspline_mindist:int': 60, 'spelling:vspline_mindist:np.float32': 40, 'spelling:vspline_mindist:np.int64': 60, 'spelling:vspline_poisson:float32(0.5)': 20, 'spelling:vspline_poisson:int(-1.0)': 20, 'spelling:vspline_poisson:int(0.0)': 20, 'spelling:vspline_poisson:int(1.0)': 20, 'spelling:vspline_poisson:int64(0.0)': 20, 'spelling:vspline_poisson:int64(1.0)': 20, 'spelling:vspline_poisson:ndarray(-1.0)': 20, 'spelling:vspline_poisson:ndarray(0.25)': 20},
 }
 JOBS = {"quick": 1, "thorough": 16}
 CASE_TIMEOUT_S = 300
@@ -78,8 +80,8 @@ CASE_TIMEOUT_S = 300
 
 def plan(tier):
     if tier == "quick":
-        return collections.OrderedDict(trend=600, spline=700, vspline=280, wscale=240, vanish=240, wmag=210, history=288)
-    return collections.OrderedDict(trend=15000, spline=17500, vspline=7000, wscale=6000, vanish=6000, wmag=5250, history=7200)
+        return collections.OrderedDict(trend=600, spline=700, vspline=280, wscale=240, vanish=240, wmag=210, history=288, spellings=180)
+    return collections.OrderedDict(trend=15000, spline=17500, vspline=7000, wscale=6000, vanish=6000, wmag=5250, history=7200, spellings=4500)
 
 
 # ----------------------------------------------------------------------
@@ -439,8 +441,11 @@ def _forces(rng, east, north, lo_frac=0.25):
     """Force locations: None (= at the data) or a separate, possibly smaller, set inside the data region."""
     n = east.size
     mode = rng.random()
-    if mode < 0.4:
+    if mode < 0.33:
         return None, "at_data"
+    if mode < 0.4:  # the data points themselves, listed in another order: a square system that is not symmetric
+        idx = rng.permutation(n) if rng.random() < 0.6 else np.arange(n)[::-1]
+        return (east[idx].copy(), north[idx].copy()), "data_points_in_another_order"
     m = int(rng.integers(max(1, int(np.ceil(lo_frac * n))), n + 1))
     if mode < 0.7:  # a subset of the data points, moved a little
         idx = rng.permutation(n)[:m]
@@ -473,6 +478,8 @@ def _make(rng, verde, kind, east, north, damping="random", forces="random", over
         else:
             force, where = forces, "given"
         cfg.update(damping=damp, forces=where, n_forces=n if force is None else int(force[0].size))
+        if run is not None:
+            run.count("forces:%s:%s" % (kind, where))
         if force is not None and run is not None:  # force locations in independent layouts as well (n_1d_arrays flattens them in C order)
             fshape = lay.logical_shape(rng, force[0].size, p_2d=0.5)
             shaped = []
@@ -611,6 +618,94 @@ def _reconfigure(run, rng, verde, est, kind, east, north):
             setattr(est, name, value)
         run.count("history:via_attribute_assignment")
     return params
+
+
+DAMPING_SPELLINGS = (1, 10, 100, np.int64(10), np.int32(1), np.float32(0.5), np.float32(8.0), np.array(10.0), np.array(3), np.float64(0.25))
+
+
+def _spellings(run, rng, verde, index):
+    """
+    The same scalar parameter value written as Python int / numpy integer / numpy floating / 0-d array must give the same model as the plain
+    Python float (int for the degree). The monitors judge every fit with float(value) in the reference; the twin fit is compared directly.
+    """
+    what = ["spline_damping", "vspline_damping", "trend_degree", "vspline_poisson", "spline_mindist", "vspline_mindist"][index % 6]
+    kind = what.split("_")[0]
+    n = _size(rng, 10, 120 if kind != "vspline" else 60, big_share=0.15, big_lo=60 if kind != "vspline" else 30)
+    scale = float(rng.choice([30.0, 100.0, 1e3, 1e4])) * np.sqrt(n) / 10
+    east, north = gen.cloud(rng, n, scale=scale, offset_factor=float(rng.choice([0.0, 1.0])))
+    spacing = _mean_spacing(east, north)
+    data = _data(rng, kind, east, north, run)
+    weights = None
+    if rng.random() < 0.7:
+        weights = (_weights(rng, n), _weights(rng, n) * gen.log_uniform(rng, 1e-1, 1e1)) if kind == "vspline" else _weights(rng, n)
+    forces = None
+    if kind != "trend" and rng.random() < 0.6:
+        m = int(rng.integers(max(2, n // 4), n))
+        idx = rng.permutation(n)[:m]
+        forces = (east[idx] + rng.normal(0, 0.05 * spacing, m), north[idx] + rng.normal(0, 0.05 * spacing, m))
+    k = index // 6
+
+    def spell_real(value, how):
+        return {"int": int(value), "np.int64": np.int64(value), "np.float32": np.float32(value), "0-d array": np.array(float(value)),
+                "np.float64": np.float64(value)}[how]
+
+    if what.endswith("damping"):
+        spelled = DAMPING_SPELLINGS[k % len(DAMPING_SPELLINGS)]
+        plain = float(spelled)
+        label = "%s(%s)" % (type(spelled).__name__, plain)
+        other = {"mindist": float(spacing * rng.uniform(0.2, 1.0)), "poisson": float(rng.uniform(-1, 1))} if kind == "vspline" else {}
+        build = lambda d: (verde.VectorSpline2D(damping=d, force_coords=forces, **other) if kind == "vspline" else verde.Spline(damping=d, force_coords=forces))  # noqa: E731
+    elif what == "trend_degree":
+        degree = int(rng.integers(0, 5))
+        spelled = [np.int64(degree), np.int32(degree), np.uint8(degree), np.array(degree)][k % 4]
+        plain = degree
+        label = type(spelled).__name__
+        build = lambda d: verde.Trend(d)  # noqa: E731
+    elif what == "vspline_poisson":
+        spelled = [0, -1, 1, np.int64(0), np.int64(1), np.float32(0.5), np.array(0.25), np.array(-1)][k % 8]
+        plain = float(spelled)
+        label = "%s(%s)" % (type(spelled).__name__, plain)
+        damping = _damping(rng)
+        mind = float(spacing * rng.uniform(0.2, 1.0))
+        build = lambda v: verde.VectorSpline2D(poisson=v, mindist=mind, damping=damping, force_coords=forces)  # noqa: E731
+    else:
+        how = ["int", "np.int64", "np.float32", "0-d array"][k % 4]
+        plain = float(max(1, int(round(spacing * rng.uniform(0.1, 0.8)))))
+        spelled = spell_real(plain, how)
+        label = how
+        damping = _damping(rng)
+        poisson = float(rng.uniform(-1, 1))
+        build = lambda v: (verde.VectorSpline2D(poisson=poisson, mindist=v, damping=damping, force_coords=forces) if kind == "vspline"  # noqa: E731
+                           else verde.Spline(mindist=v, damping=damping, force_coords=forces))
+    run.count("spelling:%s:%s" % (what, label))
+    with warnings.catch_warnings():
+        warnings.simplefilter("ignore")
+        est, twin = build(spelled), build(plain)
+    coords_fit, d_fit, w_fit, _ = _present_fit(run, rng, kind, east, north, data, weights)
+    _fit(est, coords_fit, d_fit, w_fit)
+    _fit(twin, (east, north), data, weights)
+    qe, qn = _queries(rng, east, north)
+    coords = (np.concatenate([east, qe]), np.concatenate([north, qn]))
+    got, want = _predict(est, coords), _predict(twin, coords)
+    rec = _lookup(twin)
+    run.sample("spellings", {"parameter": what, "spelling": label, "value": plain, "n": n})
+    if rec is None or rec.skip or not rec.informative:
+        run.count("skipped:equivalent_spelling:" + ("no_record" if rec is None else (rec.skip or "uninformative")[:40]))
+        return
+    scale_of = max(float(np.abs(want).max()), float(np.abs(rec.data).max()))
+    tol = 2 * rec.rel_tol * scale_of
+    err = float(np.max(np.abs(got - want)))
+    run.evaluated("equivalent_spelling")
+    if not err <= tol:
+        run.violation("equivalent_spelling",
+                      "%s given as %s and as the plain %r give different models: predictions differ by %.3g > tolerance %.3g" % (what, label, plain, err, tol),
+                      {"parameter": what, "spelling": label, "value": plain, "easting": east, "northing": north, "data": list(data) if isinstance(data, tuple) else data,
+                       "weights": None if weights is None else (list(weights) if isinstance(weights, tuple) else weights), "force_coords": forces,
+                       "prediction_spelled": got, "prediction_plain": want}, key="spelling:" + what)
+        return
+    if tol > 0:
+        run.observe_max("equivalent_spelling_err_over_tol:" + what, err / tol)
+    run.mark_nontrivial("spelling", what, label, plain, east, north, list(data) if isinstance(data, tuple) else data)
 
 
 HISTORY_MODES = ("refit_after_use", "refit_directly", "refit_same_arrays_new_contents", "reconfigure_after_use", "reconfigure_before_use",
@@ -913,6 +1008,8 @@ def run_case(run, tap, stream, index, rng):
                               "numerical_tolerance": tol})
     elif stream == "history":
         _history(run, rng, verde, index)
+    elif stream == "spellings":
+        _spellings(run, rng, verde, index)
     elif stream == "wmag":
         # weight-magnitude classes: the same non-uniform relative weights times 1e-15 ... 1e12, for every estimator configuration
         configs = ["trend", "spline_damped", "spline_undamped_fewer_forces", "vspline_damped", "vspline_undamped_fewer_forces", "spline_damped_fewer_forces"]
